@@ -368,7 +368,8 @@ func (c *Ctx) callMayPanic(fr *Frame, st *State, site ssa.Instruction, callee, c
 		c.oblige("safety", fmt.Sprintf("%s#call[%s].%s-covered", caller, callee, kind), own.Label, own.Props, implies(cond, ov.Term), site.Pos(), "callee "+kind+"s only when the caller's '"+kind+"s when' holds: "+own.Src)
 		return
 	}
-	c.oblige("safety", fmt.Sprintf("%s#call[%s].no-%s", caller, callee, kind), cl.Label, cl.Props, not(cond), site.Pos(), "callee does not "+kind+": !("+cl.Src+")")
+	// the caller's own safety: attributed to the caller's properties
+	c.oblige("safety", fmt.Sprintf("%s#call[%s].no-%s", caller, callee, kind), "", nil, not(cond), site.Pos(), "callee does not "+kind+": !("+cl.Src+")")
 }
 
 // havocEverything: the callee may write any heap location, global and ghost variable.
